@@ -86,12 +86,40 @@ def monitor_ops(rng, s, n):
     return ops
 
 
+def gen_fullring(rng, out, i):
+    """The consumer lags exactly one lap: the ring holds k frames (plus a slack smaller than a frame); the sink takes the
+    first `pre` frames (software-triggered camera: the client decides when frames arrive), then is kept from running (exclusion
+    window of the scheduler) while the last k frames arrive, wrap, and bring the writer's head to the sink's position one lap
+    ahead - completely full, which position-only comparisons take for empty - and the acquisition ends. Sometimes followed by
+    an ordinary second acquisition, sometimes one frame short of / beyond the exact fill."""
+    d = stream_line(rng, 0, "complete", 1)
+    k = rng.choice([2, 2, 3, 4, 5])          # (a frame as large as the ring is never accepted by channel_write_map: out of scope)
+    pre = rng.randint(1, k - 1)
+    fb = frame_bytes(d["w"], d["h"], d["type"])
+    last = k + rng.choice([0, 0, 0, 0, -1])  # frames that arrive while the sink is held back
+    n = pre + last
+    d.update(frames=n, delay_ms=0, slow=0, pace=0, camstop=0, trigger=1)
+    lines = ["seed %d" % rng.randint(1, 10**9), "strategy random", "window client_mark 0 1 %d x" % rng.choice([3000, 8000]),
+             "cap %d" % (k * fb + rng.choice([8, 8, 16, fb // 2])), "fill 1", "streams 1", fmt_stream(0, d)]
+    prog = ["start", "triggers", "0", str(pre), "8", "waitstor", "0", str(pre), "mark", "triggers", "0", str(last), "4", "stop"]
+    if rng.random() < 0.5:
+        prog += ["start", "triggers", "0", str(n), "6", "stop"]
+    lines += ["prog " + " ".join(prog), "out " + out]
+    return "\n".join(lines) + "\n"
+
+
 def gen_config(rng, fam, out, i):
+    if fam == "fullring":
+        return gen_fullring(rng, out, i)
     ns = 2 if rng.random() < 0.25 else 1
     avg = rng.choice([2, 2, 3]) if fam == "avg" else (rng.choice([1, 1, 1, 2, 3]) if fam in ("abort", "monitor") else 1)
     streams = [stream_line(rng, s, fam, avg) for s in range(ns)]
     fb = max(max(frame_bytes(d["w"], d["h"], d["type"]), acc_bytes(d["w"], d["h"]) if avg > 1 else 0) for d in streams)
     cap = int(fb * rng.choice([1.2, 1.5, 2.0, 2.5, 2.7, 3.3, 5.0])) + rng.randint(1, 9)
+    if rng.random() < 0.3:
+        # a ring that whole frames fill exactly: the writer's head can meet a reader's position a full lap ahead
+        # (completely full and empty look alike to code that compares positions only)
+        cap = fb * rng.choice([2, 3, 4, 5])
     lines = sched_lines(rng, 1 + 3 * ns)
     lines += ["cap %d" % cap, "fill %d" % (1 if (avg > 1 or rng.random() < 0.3) else 0), "streams %d" % ns]
     prog = []
@@ -283,7 +311,7 @@ def gen_lifecycle(rng, out, i):
     return "\n".join(lines) + "\n"
 
 
-FAMILIES = {"C08": ["lifecycle"], "C04": ["complete"], "C05": ["complete", "monitor", "avg"], "C06": ["monitor"], "C07": ["abort"], "C09": ["fault"], "C10": ["avg"]}
+FAMILIES = {"C08": ["lifecycle"], "C04": ["complete", "fullring"], "C05": ["complete", "monitor", "avg"], "C06": ["monitor"], "C07": ["abort"], "C09": ["fault"], "C10": ["avg"]}
 NRUNS = {"quick": 600, "thorough": 6000}
 
 
@@ -378,7 +406,7 @@ def run_family(chk, prop, exe, bdir, fam, n, rng, tag):
     res = run_many(exe, cfgs, timeout=120)
     bad = [(c, rc, o) for c, (rc, o) in zip(cfgs, res) if rc != 0]
     if bad:
-        raise Broken("pipe_vs exited abnormally (rc=%s) on %s:\n%s\n%s" % (bad[0][1], bad[0][0], open(bad[0][0]).read(), bad[0][2][-800:]))
+        crash_or_broken(bad[0][1], bad[0][2], "pipe_vs", "pipe_vs on " + open(bad[0][0]).read().replace("\n", "; ")[:800])
     allp = os.path.join(bdir, tag + "_all.ndjson")
     idx = concat(traces, allp)
     v = judge(chk, prop, allp, idx, cfgs, bdir, fam)
@@ -573,7 +601,7 @@ def refine_family(chk, prop, exe, bdir, rng, n):
     res = run_many(exe, [j[0] for j in jobs], timeout=120)
     for (cfgp, out, consts, txt), (rc, o) in zip(jobs, res):
         if rc != 0:
-            raise Broken("pipe_vs exited abnormally (rc=%s) on a refine scenario:\n%s" % (rc, txt))
+            crash_or_broken(rc, o, "pipe_vs", "pipe_vs on a refine scenario: " + txt.replace("\n", "; ")[:800])
 
     def one(j):
         cfgp, out, consts, txt = j
@@ -726,7 +754,7 @@ def lifecycle_refine(chk, exe, bdir, rng, n):
     res = run_many(exe, [j[0] for j in jobs], timeout=120)
     for j, (rc, o) in zip(jobs, res):
         if rc != 0:
-            raise Broken("pipe_vs exited abnormally (rc=%s) on a lifecycle refine scenario:\n%s" % (rc, j[3]))
+            crash_or_broken(rc, o, "pipe_vs", "pipe_vs on a lifecycle refine scenario: " + j[3].replace("\n", "; ")[:800])
 
     def one(j):
         cfgp, out, fin, txt = j
@@ -776,8 +804,11 @@ def main(prop, tier):
     rng = random.Random(seed() * 1000003 + int(prop[1:]))
     n = NRUNS[tier]
     total_runs = total_events = 0
-    for fam in FAMILIES[prop]:
-        stats, allp = run_family(chk, prop, exe, bdir, fam, n // len(FAMILIES[prop]), rng, fam)
+    fams = FAMILIES[prop]
+    small = {"fullring": n // 5}            # directed families get a fixed small share, the others split the rest evenly
+    rest = (n - sum(small[f] for f in fams if f in small)) // max(1, len([f for f in fams if f not in small]))
+    for fam in fams:
+        stats, allp = run_family(chk, prop, exe, bdir, fam, small.get(fam, rest), rng, fam)
         chk.cov.setdefault("families", {})[fam] = stats
         total_runs += stats["runs"]
         total_events += stats["events"]
